@@ -582,6 +582,23 @@ def r93(db, ctx):
                     if d[0] == 'bin' and d[1] in ('Ne', 'Eq') and ('p', 2) in d[2:] and any(
                             x[0] == 'call' and x[1].endswith('as_index') and x[2][0][0] == 'call' and x[2][0][1].endswith('Default::default') for x in d[2:]):
                         ok = True
+        if not ok:
+            # the index of the default symbol hoisted into a captured local: read the closure with its captures substituted
+            from lm import reduce as RD
+            Rf = X.Rec(f)
+            for bi, t in f.calls():
+                for a_ in t['args']:
+                    e_ = norm(Rf.at(bi).operand(a_))
+                    fv = RD.fn_value(e_)
+                    if not fv or fv[0] != 'closure':
+                        continue
+                    body = RD.apply_fn(db, e_, [('sym', 'i')])
+                    if body is None:
+                        continue
+                    for x in X.walk(norm(body)):
+                        if x[0] == 'bin' and x[1] in ('Ne', 'Eq') and ('sym', 'i') in x[2:] and any(
+                                y[0] == 'call' and y[1].endswith('as_index') and y[2] and norm(y[2][0])[0] == 'call' and norm(y[2][0])[1].endswith('Default::default') for y in x[2:]):
+                            ok = True
         if ok:
             n += 1
             ctx.ok('R9.3', f, 'wildcard column = Symbol::default().as_index()', ['R5.1(d): equals K-1 for both alphabets'])
